@@ -88,6 +88,30 @@ CLAIMED.update({
     },
 })
 
+CLAIMED.update({
+    "C03": {
+        "text": "Every unreachable!(), expect() and index of the modelled solver is a Panic value. load_wf proves that every rule the "
+                "loader accepts has the evaluable shape (every identifier the condition mentions exists -- by an invariant of the "
+                "Pratt parser against the loader's token scan --, every operand of and/or/not is a predicate, fix D3; identifier "
+                "blocks are identifier-free), solve_wf_no_panic that such a rule never panics in matches() on ANY document function, "
+                "loaded_rule_evaluates the corollary incl. validate(). For OPTIMISED rules the panic behaviour is tied by the "
+                "correspondence check over all 16 switch sets on adversarial documents (the model predicts a panic exactly where the "
+                "crate panics); the two known classes D19 (matrix cast=cast cell) and D21 (>= 55297 columns) are listed findings.",
+        "note": TB + "PARTIAL for optimised rules: preservation of the evaluable shape by shake/rewrite/matrix is not proved; it is covered by the differential runs and the D19/D21 classifiers.",
+        "technique": "Coq proof (parser/loader invariant, size induction over expressions) + differential adversarial-document runs over 16 switch sets",
+    },
+    "C15": {
+        "text": "ignore_case_eq_prefix proves into_identifier(ic=true, s) = into_identifier(ic=false, 'i'+s) for every string; "
+                "parse_identifier_ignore_case lifts it to identifier blocks of every shape and load_rule_ignore_case to whole rules "
+                "(the two builds load the same condition and identifier trees, hence agree on every document and under every "
+                "optimisation); documented_ignore_case is the same fact for the reference meaning. Two builds of the harness "
+                "(default, --features ignore_case) are compared on random rules (as written vs i-prefixed), unoptimised and fully "
+                "optimised, and the ignore_case build against the model with ic := true.",
+        "note": TB + "After fix D12 the statement holds for non-ASCII patterns too.",
+        "technique": "Coq proof (equality of the two loaders' outputs by induction over YAML) + two-build differential runs",
+    },
+})
+
 DEFAULT_REASON = ("not claimed yet in this commit: the Coq model covers it (DESIGN.md section 7) but its property theorems "
                   "and correspondence check are still being built; nothing is inapplicable in principle")
 NOT_YET = {}
